@@ -154,3 +154,29 @@ def insert_extend(xs, ys):
 
 def str_prefix(s):
     return (s.startswith("ab"), "b" in s, s == "abc")
+
+
+def untyped_dict(x, k):
+    if isinstance(x, dict):
+        return x.get(k, -1)
+    return None
+
+
+def sentinel(d, k):
+    missing = object()
+    v = d.get(k, missing)
+    if v is missing:
+        return "absent"
+    return v
+
+
+def fstr(a, b):
+    return f"{a}-{b}|" + "x"
+
+
+def int_or_bool(x):
+    if isinstance(x, bool):
+        return "bool"
+    if isinstance(x, int):
+        return "int"
+    return "other"
